@@ -245,7 +245,7 @@ func (c *Real32) Tan(a ConstScalar) Scalar {
 func (c *Real32) Tanh(a ConstScalar) Scalar {
   x := a.GetFloat64()
   v0 := math.Tanh(x)
-  f1 := func() float64 { return 1.0-math.Pow(math.Tanh(x), 2) }
+  f1 := func() float64 { ch := math.Cosh(x); return 1.0/(ch*ch) }
   f2 := func() float64 { return -2.0*math.Tanh(x)*f1() }
   return c.monadicLazy(a, v0, f1, f2)
 }
